@@ -263,68 +263,32 @@ def _check_action_delegation(ctx, prog):
 
 
 def check_diagram_tables(ctx, prog):
-    return _wide(_check_diagram_tables, ctx, prog)
+    return _check_diagram_tables(ctx, prog)
 
 
 def _check_diagram_tables(ctx, prog):
-    ctx.rule('C15.2', 'diagram letters: the printer\'s letter for (type, colour) is mapped back by the parser\'s letter table to the same '
-                      'type, gold letters are upper case (the parser decides colour by case); the printed side letters g / s are among '
-                      'the letters the parser maps to that side')
-    I = inputs.make_interp(prog, fuel=5000000)
-    pfn = prog.one('convert_piece_to_letter')
-    cfn = prog.one('convert_char_to_piece')
-    if not ctx.anchor('fn convert_piece_to_letter', pfn is not None):
+    ctx.rule('C15.2', 'diagram letters: the letter the printer writes for (type, colour) is the expected one (gold upper case, silver '
+                      'lower case), empty squares print as blank and empty traps as x; what the parser records for each of these '
+                      'characters is decided by <prop>.pb (c)')
+    letters, why = printed_letters(prog)
+    if letters is None:
+        ctx.ob('printed diagram letters extracted', False)
+        ctx.finding('C15.2', 'Display for GameState', 'letters', 'cannot extract the printed letters: %s' % why)
         return
-    if cfn is None:
-        # no separate letter helper in the parser: the letter table is decided through the parser itself (rule <prop>.pb (c))
-        ctx.notes.append('C15.2: the parser has no convert_char_to_piece helper; its letter table is decided by C15.pb only')
-        return
-    # parser table
-    ch = Term('tok', ('c',), 32, 0, 0x10FFFF)
-    r, _ = I.call_fn(cfn, [ch])
-    consts = sorted(c for c in cmp_consts(r) if c >= 8)
-    table = {}
-    for code in consts + [ord('~'), ord('x'), ord(' ')]:
-        def av(at, code=code):
-            if at.kind == 'cmp' and at.payload[0] == 'Eq':
-                k = at.payload[2] if isinstance(at.payload[2], BV) else at.payload[1]
-                return 1 if k.uval() == code else 0
-            return None
-        leaf = eval_tree(r, av)
-        if isinstance(leaf, Enum) and leaf.var == 1:
-            tup = leaf.fields[0]
-            pv = tup.fields[0] if isinstance(tup, Struct) else None
-            table[chr(code)] = prog.types['piece::Piece']['variants'][pv.var]['name'] if isinstance(pv, Enum) else '?'
-        elif isinstance(leaf, Enum) and leaf.var == 0:
-            table[chr(code)] = None
-        else:
-            table[chr(code)] = '?'
-    # printer table
     for p in G.STRENGTH:
         for gold in (True, False):
-            sink = []
-            sink_lower = []
-            I.watch = {'<T as std::string::ToString>::to_string': sink, 'std::str::<impl str>::to_lowercase': sink_lower}
-            st = State({})
-            pr = inputs.ref_to(I, st, 'p', inputs.piece(prog, p))
-            I.memo.clear()
-            I.call_fn(pfn, [pr, TRUE if gold else FALSE], st)
-            I.watch = {}
-            # contract: str::to_lowercase lower-cases ASCII letters
-            txt = [as_text(a[0]) for _c, a in sink] + [(as_text(a[0]) or '').lower() or None for _c, a in sink_lower]
-            letter = txt[0] if len(txt) == 1 else None
+            letter = letters.get((p, gold))
             want = G.LETTER[p].upper() if gold else G.LETTER[p]
-            ok = letter == want and table.get(letter) == p and (letter.isupper() == gold if letter else False)
-            ctx.ob('%s %s prints %r; parser maps it back to %s' % ('gold' if gold else 'silver', p, letter, table.get(letter) if letter else None),
-                   ok, sample=(p == 'Camel'))
+            ok = letter == want
+            ctx.ob('%s %s prints %r' % ('gold' if gold else 'silver', p, letter), ok, sample=(p == 'Camel'))
             if not ok:
-                ctx.finding('C15.2', pfn, 'letter:%s:%s' % (p, 'gold' if gold else 'silver'),
-                            '%s %s is printed as %r (expected %r); the parser reads that letter as %s'
-                            % ('gold' if gold else 'silver', p, letter, want, table.get(letter) if letter else None))
-    ok = all(v is None for c, v in table.items() if c in '~x ')
-    ctx.ob('non-piece characters (space, trap marker x) are not read as pieces', ok)
+                ctx.finding('C15.2', 'Display for GameState', 'letter:%s:%s' % (p, 'gold' if gold else 'silver'),
+                            '%s %s is printed as %r (expected %r)' % ('gold' if gold else 'silver', p, letter, want))
+    ok = letters.get('empty') == ' ' and letters.get('trap') == 'x'
+    ctx.ob('an empty square prints as blank, an empty trap as x (%r, %r)' % (letters.get('empty'), letters.get('trap')), ok)
     if not ok:
-        ctx.finding('C15.2', cfn, 'nonpiece', 'a non-piece character is read as a piece: %s' % {c: v for c, v in table.items() if c in '~x ' and v})
+        ctx.finding('C15.2', 'Display for GameState', 'nonpiece', 'an empty square prints as %r, an empty trap as %r'
+                    % (letters.get('empty'), letters.get('trap')))
 
 
 def check_side_letters(ctx, prog):
@@ -630,24 +594,9 @@ def check_parsed_board_consistent(ctx, prog, prop, full=False):
     finally:
         B.K = saveK
     # (c) the printed letters, one constant character at a time: which board and owner the parser records for it
-    pfn = prog.one('convert_piece_to_letter')
-    if pfn is not None and sites:
-        Ic = inputs.make_interp(prog, fuel=5000000)
-        printed = {}
-        for pname in G.STRENGTH:
-            for gold in (True, False):
-                sink_s, sink_l = [], []
-                Ic.watch = {'<T as std::string::ToString>::to_string': sink_s, 'std::str::<impl str>::to_lowercase': sink_l}
-                st0 = State({})
-                Ic.memo.clear()
-                try:
-                    Ic.call_fn(pfn, [inputs.ref_to(Ic, st0, 'p', inputs.piece(prog, pname)), TRUE if gold else FALSE], st0)
-                except Undecided:
-                    pass
-                Ic.watch = {}
-                txt = [as_text(a[0]) for _c, a in sink_s] + [(as_text(a[0]) or '').lower() or None for _c, a in sink_l]
-                if len(txt) == 1 and txt[0] and len(txt[0]) == 1:
-                    printed[(pname, gold)] = txt[0]
+    letters, _why = printed_letters(prog)
+    if letters is not None and sites:
+        printed = {k: v for k, v in letters.items() if isinstance(k, tuple) and v}
         order = [f_['name'] for f_ in prog.fns[newfn].get('arg_names', [])] if prog.fns[newfn].get('arg_names') else None
         type_names = ['Elephant', 'Camel', 'Horse', 'Dog', 'Cat', 'Rabbit']      # PieceBoard::new(p1, e, m, h, d, c, r): checked by C10 accessors
         def run_const(code):
@@ -683,7 +632,7 @@ def check_parsed_board_consistent(ctx, prog, prop, full=False):
             if not ok:
                 ctx.finding(R, ffn, 'letter:%s:%s' % (pname, 'gold' if gold else 'silver'),
                             'the printed letter %r (%s %s) is recorded by the parser as %r' % (letter, 'gold' if gold else 'silver', pname, outs))
-        for letter in ' x':
+        for letter in sorted(set(x for x in (letters.get('empty'), letters.get('trap'), ' ', 'x') if x)):
             try:
                 outs = run_const(ord(letter))
             except Undecided:
@@ -753,12 +702,16 @@ def printer_skeleton(prog, I, dfn, gsv):
                 if not pending:
                     return None, 'a placeholder without an argument'
                 a = pending.pop(0)
+                if isinstance(a, Struct) and a.ty == '$String' and isinstance(a.fields[0], Ref):
+                    a = I.static_cells.get(a.fields[0].cell, a)       # a String whose text is known
+                if isinstance(a, Struct) and a.ty == '$charstr' and isinstance(a.fields[0], BV) and a.fields[0].known():
+                    a = a.fields[0]
                 if isinstance(a, Term) and a.kind == 'tok':
                     out.append(('N',))
                 elif as_text(a) is not None and not isinstance(a, BV):
                     out.extend(as_text(a))
                 elif isinstance(a, BV) and a.known():
-                    out.extend(str(a.uval()))        # integers print in decimal (Display for usize / u8)
+                    out.extend(chr(a.uval()) if a.w == 32 else str(a.uval()))   # a char prints itself, integers print in decimal
                 else:
                     idxs = set()
                     stack = [a]
@@ -855,3 +808,61 @@ def check_print_parse_layout(ctx, prog, prop):
     ctx.ob('bit i of every parsed board depends on the printed letter of square i and on no other letter (64 squares)', not bad, sample=True)
     for idx, msg in bad[:4]:
         ctx.finding(R, ffn, 'square:%d' % idx, msg)
+
+
+
+def printed_letters(prog):
+    """{(type name, is_gold): letter} as the diagram printer writes them, and the characters of an empty ordinary / trap square:
+    Display is run on a constant board holding the twelve (type, owner) combinations; the cell positions come from the
+    printer skeleton.  Independent of helper functions."""
+    from .rules_c01 import constant_board, with_board
+    dfn = find_impl(prog, 'std::fmt::Display', 'engine::GameState', 'fmt')
+    if dfn is None:
+        return None, 'no Display for GameState'
+    I = inputs.make_interp(prog, fuel=40000000)
+    I.strict_unknown = False
+    skel, why = printer_skeleton(prog, I, dfn, inputs.play_state(prog, True, 0))
+    if skel is None:
+        return None, why
+    pos = {c[1]: k for k, c in enumerate(skel) if isinstance(c, tuple) and c[0] == 'L'}
+    if sorted(pos) != list(range(64)):
+        return None, 'the printed diagram has no board-dependent cell for squares %s' % [G.name(q) for q in range(64) if q not in pos][:8]
+    combos = [(t, g) for t in G.STRENGTH for g in (True, False)]
+    squares = [q for q in range(64) if q not in G.TRAPS][:len(combos)]
+    board = constant_board(prog, {sq: combo for sq, combo in zip(squares, combos)})
+    I2 = inputs.make_interp(prog, fuel=40000000)
+    I2.strict_unknown = False
+    conc, why = printer_skeleton(prog, I2, dfn, with_board(prog, inputs.play_state(prog, True, 0), board))
+    if conc is None:
+        return None, why
+    if len(conc) != len(skel):
+        return None, 'the printed text of a constant board has %d characters, the skeleton %d' % (len(conc), len(skel))
+    out = {}
+    for sq, combo in zip(squares, combos):
+        c = conc[pos[sq]]
+        out[combo] = c if isinstance(c, str) else None
+    empty = next(q for q in range(64) if q not in G.TRAPS and q not in squares)
+    out['empty'] = conc[pos[empty]] if isinstance(conc[pos[empty]], str) else None
+    out['trap'] = conc[pos[G.TRAPS[0]]] if isinstance(conc[pos[G.TRAPS[0]]], str) else None
+    return out, None
+
+
+
+def printed_empty_board(prog):
+    """{square: character} the printer writes for every square of the empty board"""
+    from .rules_c01 import constant_board, with_board
+    dfn = find_impl(prog, 'std::fmt::Display', 'engine::GameState', 'fmt')
+    I = inputs.make_interp(prog, fuel=40000000)
+    I.strict_unknown = False
+    skel, why = printer_skeleton(prog, I, dfn, inputs.play_state(prog, True, 0))
+    if skel is None:
+        return None, why
+    pos = {c[1]: k for k, c in enumerate(skel) if isinstance(c, tuple) and c[0] == 'L'}
+    if sorted(pos) != list(range(64)):
+        return None, 'the printed diagram has no board-dependent cell for squares %s' % [G.name(q) for q in range(64) if q not in pos][:8]
+    I2 = inputs.make_interp(prog, fuel=40000000)
+    I2.strict_unknown = False
+    conc, why = printer_skeleton(prog, I2, dfn, with_board(prog, inputs.play_state(prog, True, 0), constant_board(prog, {})))
+    if conc is None or len(conc) != len(skel):
+        return None, why or 'the empty board prints with a different length'
+    return {q: (conc[pos[q]] if isinstance(conc[pos[q]], str) else None) for q in range(64)}, None
